@@ -43,13 +43,17 @@ func init() {
 		"(*os.File).Write":                      extFileWrite,
 		"(*os.File).Close":                      extFileClose,
 		"(*os.File).Sync":                       extFileSync,
-		"errors.Is":                             func(fr *frame, args []value) value { panic(pathAbort{"unsupported", "errors.Is"}) },
+		"errors.Is":                             extErrorsIs,
 		"(*bytes.Buffer).WriteString":           extBufWriteString,
 		"(*bytes.Buffer).WriteByte":             extBufWriteByte,
 		"(*bytes.Buffer).WriteRune":             extBufWriteRune,
 		"(*bytes.Buffer).String":                extBufString,
 		"(*bytes.Buffer).Len":                   extBufLen,
 		"(*bytes.Buffer).Reset":                 extBufReset,
+		"(*strings.Builder).Reset":              extBufReset,
+		"(*strings.Builder).Write":              extBufWrite,
+		"(*bytes.Buffer).Write":                 extBufWrite,
+		"maps.clone":                            extMapsClone,
 		"(*strings.Builder).WriteString":        extBufWriteString,
 		"(*strings.Builder).WriteByte":          extBufWriteByte,
 		"(*strings.Builder).WriteRune":          extBufWriteRune,
@@ -258,6 +262,13 @@ func (i *interpreter) badVerb(fr *frame, out []*Term, verb byte, t types.Type, v
 	return i.lit(out, ")")
 }
 
+// %+v: field names in structs, at every depth
+func (i *interpreter) fmtValuePlus(fr *frame, out []*Term, t types.Type, v value) []*Term {
+	i.fmtPlus = true
+	defer func() { i.fmtPlus = false }()
+	return i.fmtValue(fr, out, 'v', t, v, 1)
+}
+
 func (i *interpreter) fmtValue(fr *frame, out []*Term, verb byte, t types.Type, v value, depth int) []*Term {
 	if verb == 'v' || verb == 's' || verb == 'q' {
 		if depth < 8 {
@@ -321,6 +332,9 @@ func (i *interpreter) fmtValue(fr *frame, out []*Term, verb byte, t types.Type, 
 				out = i.lit(out, " ")
 			}
 			ft := st.Field(k).Type()
+			if i.fmtPlus {
+				out = i.lit(out, st.Field(k).Name()+":")
+			}
 			if fi, ok := x[k].(iface); ok {
 				if fi.t == nil {
 					out = i.lit(out, "<nil>")
@@ -458,7 +472,7 @@ func (i *interpreter) sprintf(fr *frame, format value, args []value) value {
 		}
 		vb := fb[k]
 		k++
-		const known = "%sdvtfqcx"
+		const known = "%sdvtfqcxT"
 		verb := byte(0)
 		if vb.isConst() {
 			verb = byte(vb.val)
@@ -508,6 +522,17 @@ func (i *interpreter) sprintf(fr *frame, format value, args []value) value {
 		switch {
 		case verb == '%':
 			out = i.lit(out, "%")
+		case verb == 'T':
+			if argi >= len(args) {
+				out = i.lit(out, "%!T(MISSING)")
+			} else {
+				if a := args[argi].(iface); a.t == nil {
+					out = i.lit(out, "<nil>")
+				} else {
+					out = i.lit(out, typeName(a.t))
+				}
+				argi++
+			}
 		case strings.IndexByte("sdvtfqcx", verb) >= 0:
 			if argi >= len(args) {
 				out = i.lit(out, "%!"+string(verb)+"(MISSING)")
@@ -516,7 +541,90 @@ func (i *interpreter) sprintf(fr *frame, format value, args []value) value {
 				argi++
 			}
 		case strings.IndexByte("+-# 0123456789.*[", verb) >= 0:
-			panic(pathAbort{"unsupported", "Sprintf flags/width: %" + string(verb)})
+			// concrete flags and width: [-0+]* digits verb
+			minus, zero, plus := false, false, false
+			width := 0
+			c := verb
+			next := func() {
+				if k >= len(fb) || !fb[k].isConst() {
+					panic(pathAbort{"unsupported", "Sprintf flags/width followed by a symbolic or missing byte"})
+				}
+				c = byte(fb[k].val)
+				k++
+			}
+			for c == '-' || c == '0' || c == '+' {
+				switch c {
+				case '-':
+					minus = true
+				case '0':
+					zero = true
+				case '+':
+					plus = true
+				}
+				next()
+			}
+			for c >= '0' && c <= '9' {
+				width = width*10 + int(c-'0')
+				next()
+			}
+			if strings.IndexByte("sdvtqcx", c) < 0 || (plus && c != 'd' && c != 'v') || width > 64 {
+				panic(pathAbort{"unsupported", "Sprintf flags/width/precision: %…" + string(c)})
+			}
+			if argi >= len(args) {
+				out = i.lit(out, "%!"+string(c)+"(MISSING)")
+				break
+			}
+			var tmp []*Term
+			if plus && c == 'v' {
+				a := args[argi].(iface)
+				if a.t == nil {
+					tmp = i.lit(nil, "<nil>")
+				} else {
+					tmp = i.fmtValuePlus(fr, nil, a.t, a.v)
+				}
+			} else {
+				tmp = i.fmtOperand(fr, nil, c, args[argi], true)
+			}
+			argi++
+			for _, t := range tmp {
+				if !t.isConst() && width > 0 {
+					// width counts runes: symbolic bytes must be ASCII
+					if !i.ps.decide(tf.cmp(opULt, t, tf.bv(0x80, 8))) {
+						panic(pathAbort{"unsupported", "Sprintf width over symbolic non-ASCII bytes"})
+					}
+				} else if t.isConst() && t.val >= 0x80 && width > 0 {
+					panic(pathAbort{"unsupported", "Sprintf width over non-ASCII text"})
+				}
+			}
+			neg := len(tmp) > 0 && tmp[0].isConst() && tmp[0].val == '-'
+			if plus && c == 'd' && !neg {
+				tmp = append(i.lit(nil, "+"), tmp...)
+				neg = true // a sign is in front
+			}
+			switch {
+			case len(tmp) >= width:
+				out = append(out, tmp...)
+			case minus:
+				out = append(out, tmp...)
+				for n := len(tmp); n < width; n++ {
+					out = append(out, tf.bv(' ', 8))
+				}
+			case zero && (c == 'd' || c == 'x'):
+				if neg {
+					out = append(out, tmp[0])
+					tmp = tmp[1:]
+					width--
+				}
+				for n := len(tmp); n < width; n++ {
+					out = append(out, tf.bv('0', 8))
+				}
+				out = append(out, tmp...)
+			default:
+				for n := len(tmp); n < width; n++ {
+					out = append(out, tf.bv(' ', 8))
+				}
+				out = append(out, tmp...)
+			}
 		case verb >= 0x80:
 			panic(pathAbort{"unsupported", "Sprintf non-ASCII verb"})
 		default:
@@ -607,8 +715,75 @@ func extPrint(fr *frame, args []value) value {
 	return tuple{strLen(s), iface{}}
 }
 
+// errors.Is: identity along the Unwrap chain; the virtual file system's
+// errors match fs.ErrNotExist / ErrPermission / ErrExist by their text.
+func extErrorsIs(fr *frame, args []value) value {
+	i := fr.i
+	err, _ := args[0].(iface)
+	target, _ := args[1].(iface)
+	sentinel := func(name string) (iface, bool) {
+		if fp := i.prog.ImportedPackage("io/fs"); fp != nil {
+			if g := fp.Var(name); g != nil {
+				if v, ok := (*i.global(g)).(iface); ok && v.t != nil {
+					return v, true
+				}
+			}
+		}
+		return iface{}, false
+	}
+	same := func(a, b iface) bool {
+		if a.t == nil || b.t == nil || !types.Identical(a.t, b.t) {
+			return false
+		}
+		pa, oka := a.v.(*value)
+		pb, okb := b.v.(*value)
+		if oka && okb {
+			return pa == pb
+		}
+		if types.Comparable(a.t) && !containsSym(a.v) && !containsSym(b.v) {
+			return fr.i.asBool(binop(fr.i, token.EQL, a.t, a.v, b.v))
+		}
+		return false
+	}
+	for depth := 0; depth < 16; depth++ {
+		if err.t == nil {
+			return false
+		}
+		if target.t != nil && same(err, target) {
+			return true
+		}
+		if err.t == i.runtimeErrorString {
+			// an error made by the virtual file system
+			msg, _ := err.v.(string)
+			for text, name := range map[string]string{"no such file or directory": "ErrNotExist", "permission denied": "ErrPermission", "file exists": "ErrExist"} {
+				if s, ok := sentinel(name); ok && same(s, target) {
+					return strings.Contains(msg, text)
+				}
+			}
+			return false
+		}
+		sel := i.prog.MethodSets.MethodSet(err.t).Lookup(nil, "Unwrap")
+		if sel == nil {
+			return false
+		}
+		m := i.prog.MethodValue(sel)
+		if m == nil || m.Signature.Results().Len() != 1 {
+			panic(pathAbort{"unsupported", "errors.Is over " + err.t.String()})
+		}
+		next, ok := callSSA(i, fr, token.NoPos, m, []value{err.v}, nil).(iface)
+		if !ok {
+			panic(pathAbort{"unsupported", "errors.Is: Unwrap() []error"})
+		}
+		err = next
+	}
+	panic(pathAbort{"unsupported", "errors.Is: Unwrap chain too long"})
+}
+
 // fmt.Errorf: an *errors.errorString (through the real errors.New) holding the formatted text
 func extErrorf(fr *frame, args []value) value {
+	if f, ok := args[0].(string); ok && strings.Contains(f, "%w") {
+		panic(pathAbort{"unsupported", "fmt.Errorf with %w"})
+	}
 	s := fr.i.sprintf(fr, args[0], variadic(args[1]))
 	if ep := fr.i.prog.ImportedPackage("errors"); ep != nil && ep.Func("New") != nil {
 		return callSSA(fr.i, fr, token.NoPos, ep.Func("New"), []value{s}, nil)
@@ -899,6 +1074,73 @@ func extBufLen(fr *frame, args []value) value {
 	c := bufCell(args)
 	cur, _ := (*c).([]value)
 	return len(cur)
+}
+
+func extBufWrite(fr *frame, args []value) value {
+	c := bufCell(args)
+	cur, _ := (*c).([]value)
+	add, _ := args[1].([]value)
+	*c = append(cur, copyVals(add)...)
+	return tuple{len(add), iface{}}
+}
+
+// maps.clone (runtime linkname): a shallow copy of the map
+func extMapsClone(fr *frame, args []value) value {
+	a := args[0].(iface)
+	m, ok := a.v.(*omap)
+	if !ok {
+		panic(pathAbort{"unsupported", "maps.clone of this map representation"})
+	}
+	if m == nil {
+		return a
+	}
+	c := newOmap(m.kt)
+	c.keys = append([]value(nil), m.keys...)
+	c.vals = copyVals(m.vals)
+	c.nsym = m.nsym
+	for k, v := range m.idx {
+		c.idx[k] = v
+	}
+	return iface{t: a.t, v: c}
+}
+
+// sync/atomic on a single thread: plain loads and stores
+func atomicCell(args []value) *value {
+	p, _ := args[0].(*value)
+	if p == nil {
+		panic(rtPanic("runtime error: invalid memory address or nil pointer dereference"))
+	}
+	return p
+}
+
+func init() {
+	for _, ty := range []string{"Int32", "Int64", "Uint32", "Uint64", "Uintptr", "Pointer"} {
+		externals["sync/atomic.Load"+ty] = func(fr *frame, args []value) value { return *atomicCell(args) }
+		externals["sync/atomic.Store"+ty] = func(fr *frame, args []value) value { *atomicCell(args) = args[1]; return nil }
+		externals["sync/atomic.Swap"+ty] = func(fr *frame, args []value) value {
+			p := atomicCell(args)
+			old := *p
+			*p = args[1]
+			return old
+		}
+		externals["sync/atomic.CompareAndSwap"+ty] = func(fr *frame, args []value) value {
+			p := atomicCell(args)
+			t := fr.fn.Signature.Params().At(1).Type()
+			if fr.i.asBool(binop(fr.i, token.EQL, t, *p, args[1])) {
+				*p = args[2]
+				return true
+			}
+			return false
+		}
+		if ty != "Pointer" {
+			externals["sync/atomic.Add"+ty] = func(fr *frame, args []value) value {
+				p := atomicCell(args)
+				t := fr.fn.Signature.Params().At(1).Type()
+				*p = binop(fr.i, token.ADD, t, *p, args[1])
+				return *p
+			}
+		}
+	}
 }
 
 func extBufReset(fr *frame, args []value) value {
